@@ -14,6 +14,7 @@ func init() {
 			"the openLog origin rule: the container id never comes from a (sanitised) label",
 			"PV-API keyword lookup exact (mixed-case names stay identifiers)",
 			"PV-ROLE ParseOptions.AllowDots reaches lexer and parser; FE-CLASS scanner identifier characters (a leading `_` starts an identifier)",
+			"PV-WHOLE mergeIter.init pushes the first record of every non-empty stream",
 		},
 		NotDecided: []string{"the empty key (maps to the empty name; recorded as an assumption)", "collisions of two Docker keys that sanitise to the same name", "that the representatives cover every rune: they cover both sides of every comparison constant in the ASCII range and letters/digits/symbols outside it"},
 		Rules: func(r *Run) {
@@ -27,6 +28,7 @@ func init() {
 			ruleKeywordLookupExact(r)
 			ruleParserOptionsReachLexer(r)
 			ruleScannerIdentRune(r)
+			ruleMergeIter(r) // every selected container contributes its records
 		},
 	})
 }
